@@ -181,3 +181,112 @@ theorem block_walk (ins : List Ins) (nexts : List (List Nat)) (bs : List RawBloc
     exact ⟨_, hmem, hab, rfl⟩
 
 end Tealer.BlockWalk
+
+namespace Tealer.BlockWalk
+open Tealer.BlockShape Tealer.Reach Tealer.Avm
+
+/-- every return address on the call stack is the position after a `callsub` instruction -/
+def CallsOk (prog : List Ins) (calls : List Nat) : Prop :=
+  ∀ a ∈ calls, ∃ c l, a = c + 1 ∧ ∃ i, prog[c]? = some i ∧ i.op = .callsub l
+
+theorem stepOther_calls (s s' : State) (name : String) (h : stepOther s name = .next s') : s'.calls = s.calls := by
+  unfold stepOther at h
+  simp only [] at h
+  repeat' split at h
+  all_goals first
+    | (cases h; done)
+    | (simp only [Outcome.next.injEq] at h; subst h; rfl)
+
+/-- the call-stack invariant is preserved by every step (it holds initially: the stack is empty) -/
+theorem callsOk_step (prog : List Ins) (e : Env) (s s' : State) (h : CallsOk prog s.calls)
+    (hs : step prog e s = .next s') : CallsOk prog s'.calls := by
+  unfold step at hs
+  split at hs
+  · split at hs <;> (try split at hs) <;> cases hs
+  · rename_i i hi
+    simp only [] at hs
+    cases hop : i.op <;> simp only [hop] at hs
+    case callsub l =>
+      split at hs
+      · simp only [Outcome.next.injEq] at hs; subst hs
+        intro a ha
+        simp only [List.mem_append, List.mem_singleton] at ha
+        rcases ha with ha | ha
+        · exact h a ha
+        · exact ⟨s.pc, l, ha, i, hi, hop⟩
+      · cases hs
+    case retsub =>
+      split at hs
+      · simp only [Outcome.next.injEq] at hs; subst hs
+        intro a ha
+        exact h a (List.dropLast_subset _ ha)
+      · cases hs
+    case other name po pu =>
+      rw [stepOther_calls s s' name hs]; exact h
+    all_goals
+      repeat' split at hs
+    all_goals first
+      | (cases hs; done)
+      | (simp only [Outcome.next.injEq] at hs; subst hs; exact h)
+
+theorem closes_callsub (opAt : Nat → Op) (nxAt : Nat → List Nat) (c : Nat) (h : (opAt c).isCallsub = true) :
+    closes opAt nxAt c = true := by
+  unfold closes; simp [h]
+
+/-- a `callsub` instruction is the last instruction of its block -/
+theorem callsub_ends_block (ins : List Ins) (nexts : List (List Nat)) (h : insNext ins = .ok nexts)
+    (c : Nat) (i : Ins) (l : String) (hi : ins[c]? = some i) (hop : i.op = .callsub l) :
+    ∃ B, blockOfIns (createBB ins nexts).1 c = .ok B ∧ ((createBB ins nexts).1[B]!).getLast? = some c := by
+  have hlen := CfgL.insNext_length ins nexts h
+  have hf := CfgL.createBB_partition ins nexts hlen
+  have hc : c < ins.length := (List.getElem?_eq_some_iff.mp hi).1
+  obtain ⟨B, hB, hBlt, hBin⟩ := mem_block _ _ c hf hc
+  refine ⟨B, hB, ?_⟩
+  rcases last_or_adj _ c hBin with hlast | ⟨b, hab⟩
+  · exact hlast
+  · exfalso
+    have hmem : (createBB ins nexts).1[B]! ∈ (createBB ins nexts).1 := by
+      rw [getElem!_pos _ B hBlt]; exact List.getElem_mem _
+    obtain ⟨hcl, _⟩ := createBB_shape ins nexts hlen _ hmem c b hab
+    have : (ins[c]!).op = .callsub l := by
+      rw [getElem!_pos ins c hc]
+      have := (List.getElem?_eq_some_iff.mp hi).2
+      rw [this]; exact hop
+    rw [closes_callsub _ _ c (by show ((ins[c]!).op).isCallsub = true; rw [this]; rfl)] at hcl
+    cases hcl
+
+/-- THE RETURN EDGE: under the call-stack invariant, a `retsub` step lands — unless it returns past the end of the program —
+    in a block that is in the successor list of the block ending with the matching `callsub` (the tool's return point) -/
+theorem return_edge (ins : List Ins) (nexts : List (List Nat)) (bs : List RawBlock) (h : insNext ins = .ok nexts)
+    (hg : CfgWF.graphOf ins nexts = .ok bs) (calls : List Nat) (hc : CallsOk ins calls) (a : Nat)
+    (ha : calls.getLast? = some a) :
+    a = ins.length ∨
+    ∃ c l i B B', a = c + 1 ∧ ins[c]? = some i ∧ i.op = .callsub l ∧
+      blockOfIns (createBB ins nexts).1 c = .ok B ∧ ((createBB ins nexts).1[B]!).getLast? = some c ∧
+      blockOfIns (createBB ins nexts).1 a = .ok B' ∧ B' ∈ (bs[B]!).next := by
+  obtain ⟨c, l, hac, i, hi, hop⟩ := hc a (List.mem_of_getLast? ha)
+  have hclt : c < ins.length := (List.getElem?_eq_some_iff.mp hi).1
+  by_cases hend : a = ins.length
+  · exact Or.inl hend
+  · right
+    have hlt : c + 1 < ins.length := by omega
+    obtain ⟨jumps, _, hn⟩ := StepEdge.insNext_get ins nexts h c i hi
+    have hmem : a ∈ nexts[c]! := by
+      rw [hn, hac]
+      simp [hop, Op.noFallthrough, hlt]
+    obtain ⟨B, hB, hlast⟩ := callsub_ends_block ins nexts h c i l hi hop
+    rcases block_walk ins nexts bs h hg c i hi a hmem with ⟨blk, hblk, hadj, _⟩ | ⟨B1, B', hB1, hB', _, hin⟩
+    · exfalso
+      have hlen := CfgL.insNext_length ins nexts h
+      obtain ⟨hcl, _⟩ := createBB_shape ins nexts hlen blk hblk c a hadj
+      have : (ins[c]!).op = .callsub l := by
+        rw [getElem!_pos ins c hclt]
+        have := (List.getElem?_eq_some_iff.mp hi).2
+        rw [this]; exact hop
+      rw [closes_callsub _ _ c (by show ((ins[c]!).op).isCallsub = true; rw [this]; rfl)] at hcl
+      cases hcl
+    · rw [hB] at hB1
+      cases hB1
+      exact ⟨c, l, i, B, B', hac, hi, hop, hB, hlast, hB', hin⟩
+
+end Tealer.BlockWalk
